@@ -249,3 +249,49 @@ example : (TObj.new false (.list [.str [], .str (L "a"), .str []]) (.str (L "H")
      { lines := [L "a"], str := L "H\na\n", extra := some [L "H", L "a"] }] := by decide
 
 end C17
+
+/-! ### several blocks handed to one another -/
+namespace C17
+
+/-- the object a multi-object step is applied to (none: the step only produces a new block) -/
+def HOp2.target : HOp2 → Option Nat
+  | .on o _ => some o
+  | .appendRef o _ => some o
+  | .addRef _ _ => none
+  | .newFrom o _ _ => some o
+  | .appendLinesOf o _ => some o
+
+theorem objAt_set_ne (objs : List TObj) (o i : Nat) (x : TObj) (h : i ≠ o) :
+    objAt (objs.set o x) i = objAt objs i := by
+  simp [objAt, List.getD_eq_getElem?_getD, List.getElem?_set_ne (Ne.symm h)]
+
+/-- **blocks stay independent**: handing a block to another one (append, `+=`, `+`, construction from it,
+    appending its `lines`) copies lines; a step changes no block other than the one it is applied to —
+    in particular never the block that was handed over -/
+theorem step2_frame (objs : List TObj) (op : HOp2) (i : Nat) (h : HOp2.target op ≠ some i) :
+    objAt (step2 objs op).1 i = objAt objs i := by
+  cases op with
+  | on o p =>
+    have hne : i ≠ o := by intro e; exact h (by simp [HOp2.target, e])
+    simp only [step2]
+    exact objAt_set_ne _ _ _ _ hne
+  | appendRef o j =>
+    have hne : i ≠ o := by intro e; exact h (by simp [HOp2.target, e])
+    simp only [step2]
+    exact objAt_set_ne _ _ _ _ hne
+  | addRef o j => rfl
+  | newFrom o j c =>
+    have hne : i ≠ o := by intro e; exact h (by simp [HOp2.target, e])
+    simp only [step2]
+    exact objAt_set_ne _ _ _ _ hne
+  | appendLinesOf o j =>
+    have hne : i ≠ o := by intro e; exact h (by simp [HOp2.target, e])
+    simp only [step2]
+    exact objAt_set_ne _ _ _ _ hne
+
+/-- appending a block is appending its current lines (its header is not taken over) -/
+theorem appendRef_lines (objs : List TObj) (o j : Nat) (ho : o < objs.length) :
+    (objAt (step2 objs (.appendRef o j)).1 o).tb.lines = (objAt objs o).tb.lines ++ (objAt objs j).tb.lines := by
+  simp [step2, objAt, List.getD_eq_getElem?_getD, ho, TB.append, TObj.asBlock, contentLines]
+
+end C17
